@@ -146,7 +146,7 @@ func VT_C18_Cut() {
 
 // Shift(d) is translation by d: shifted(u + d) == original(u) for every instant u with u + d >= 0.
 func VT_C18_Shift() {
-	segs := vtSegments("a", vt.Bound("segments", 3, 4))
+	segs := vtSegments("a", vt.Bound("shiftSegments", 2, 3))
 	snap := vtSnapshot(segs)
 	d := vtTime("d")
 	out := Shift(d, segs...)
